@@ -159,9 +159,6 @@ func TestVerifC11Regroup(t *testing.T) {
 		recoverAt := -1
 		nkeys, capSlots, zcap := 1, 0, 0 // capSlots == 0: no capacity pools (the single-key modes)
 		tmpl := r.Intn(5)
-		if tmpl == 4 && os.Getenv("VERIF_C11_FLIGHTS_OFF") != "" {
-			tmpl = 0
-		}
 		if c < len(corpus) {
 			tmpl = -1
 		}
